@@ -73,3 +73,5 @@ V('C03', 'pointer-decision-before-bases', 'edb/edgeql/codegen.py', 'edb.edgeql.c
 ''', 'C03.R3ddl', 'visit_CreateConcretePointer:_ddl_add_pointer_bases')
 V('C03', 'index-except-dep-from-on-expr', 'edb/edgeql/declarative.py', 'edb.edgeql.declarative.trace_Index',
   'exprs.append(ExprDependency(expr=node.except_expr))', 'exprs.append(ExprDependency(expr=node.expr))', 'C03.R6', 'CreateConcreteIndex.except_expr')
+V('C03', 'special-syntax-by-command-class', 'edb/schema/delta.py', 'edb.schema.delta.AlterObjectProperty._get_ast',
+  'and isinstance(parent_node, qlast.AlterObject)', 'and isinstance(parent_op, AlterObject)', 'C03.R1', 'AlterObjectProperty._get_ast:predicate')
